@@ -43,7 +43,7 @@ impl BoardMonitor for C06 {
             EvKind::Null => cx.count("sound-checked:after-null"),
         }
         // acceptance: positions reached by legal play from the (double) Chess960 starts
-        let reachable = (ev.source == "start960" || ev.source == "dfrc") && ev.hist.route != "setters" && !ev.hist.moves.iter().any(|x| x == "null");
+        let reachable = (ev.source == "start960" || ev.source == "dfrc" || ev.source == "start960-tree") && ev.hist.route != "setters" && !ev.hist.moves.iter().any(|x| x == "null");
         if reachable {
             cx.count("acceptance:positions-re-entered");
             if ev.source == "dfrc" {
@@ -341,6 +341,24 @@ pub fn apply_defect(rng: &mut crate::rng::Rng, base: &RPos, which: usize) -> Opt
             p.half = 101 + rng.below(155) as u32;
             "halfmove-out-of-range"
         }
+        14 => {
+            // a double push that has just discovered a check (sound so far), then the passed or the
+            // origin square is occupied: the EP clause must be judged whatever the checkers are
+            let (pre, from, to) = gen::ep_discovery_case(rng)?;
+            let mv = RMove { from: from as u8, to: to as u8, promo: None };
+            if !pre.legal_moves().contains(&mv) {
+                return None;
+            }
+            let mut q = pre.make(mv);
+            if q.structurally_sound().is_err() {
+                return None;
+            }
+            let (ff, _) = fr(from);
+            let pusher = other(q.stm);
+            let passed = idx(ff, rel_rank(pusher, 3));
+            q.sq[passed] = Some((if rng.chance(1, 2) { q.stm } else { pusher }, *rng.pick(&[Piece::Knight, Piece::Bishop])));
+            return Some((q, "ep-passed-square-occupied"));
+        }
         _ => {
             p.full = 0;
             "fullmove-out-of-range"
@@ -349,7 +367,7 @@ pub fn apply_defect(rng: &mut crate::rng::Rng, base: &RPos, which: usize) -> Opt
     Some((p, name))
 }
 
-pub const N_DEFECTS: usize = 14;
+pub const N_DEFECTS: usize = 15;
 
 /// Submit a candidate through every entry route; each accepted board must be sound.
 pub fn c06_submit_all_routes(cx: &mut Cx, p: &RPos, label: &'static str, expect_reject: Option<&'static str>) {
@@ -476,6 +494,24 @@ pub fn c06_start_constructors(cx: &mut Cx, pairs: u64, all_pairs: bool) {
                     );
                 }
             }
+        }
+    }
+    // the default / standard start constructors are Scharnagl 518
+    if cx.shard == 0 {
+        cx.eval();
+        let r = guard(|| {
+            let a = Board::default();
+            let b = Board::startpos();
+            let c = Board::chess960_startpos(518);
+            let d = BoardBuilder::default().build();
+            let e = BoardBuilder::startpos().build();
+            let text = format!("{}", a);
+            (a == b && b == c && d.as_ref().ok() == Some(&c) && e.as_ref().ok() == Some(&c), text)
+        });
+        match r {
+            Ok((true, text)) if text == "rnbqkbnr/pppppppp/8/8/8/8/PPPPPPPP/RNBQKBNR w KQkq - 0 1" => cx.count("default-start-constructors-agree"),
+            Ok((_, text)) => cx.violation("C06|start-constructor|default-startpos".to_string(), format!("Board::default / startpos / chess960_startpos(518) / builder defaults disagree or are not the standard start ('{}')", text), String::new(), vec!["none".into()]),
+            Err(e) => cx.violation("C06|panic|default-startpos".to_string(), format!("panicked: {}", e), String::new(), vec!["none".into()]),
         }
     }
     let distinct: std::collections::HashSet<String> = singles.iter().flatten().map(|p| write_placement(p)).collect();
@@ -980,6 +1016,27 @@ impl BoardMonitor for C09 {
                 return;
             }
         };
+        // accessor methods mirror the public fields
+        let acc_ok = guard(|| {
+            let mut ok = true;
+            let mut copy = BoardBuilder::empty();
+            for sq in 0..64 {
+                ok &= bd.square(lib_sq(sq)) == bd.board[sq];
+                *copy.square_mut(lib_sq(sq)) = bd.square(lib_sq(sq));
+            }
+            for c in [Color::White, Color::Black] {
+                ok &= *bd.castle_rights(c) == bd.castle_rights[c as usize];
+                *copy.castle_rights_mut(c) = *bd.castle_rights(c);
+            }
+            copy.side_to_move = bd.side_to_move;
+            copy.en_passant = bd.en_passant;
+            copy.halfmove_clock = bd.halfmove_clock;
+            copy.fullmove_number = bd.fullmove_number;
+            ok && copy == bd
+        });
+        if acc_ok != Ok(true) {
+            board_violation(cx, "C09", "builder-accessors".to_string(), "BoardBuilder::square/square_mut/castle_rights/castle_rights_mut do not mirror the fields".to_string(), b, m, ev);
+        }
         if bd != to_builder(m) {
             board_violation(cx, "C09", "from_board-fields".to_string(), "BoardBuilder::from_board does not carry the board's observable fields".to_string(), b, m, ev);
         }
